@@ -52,18 +52,22 @@ def monitor_x(c):
             return ("after the resume Read returned payloads %s, expected each of %s exactly once" % (c["after"], want),
                     "state.go / resume.go", {"monitor": "resumed connection does not deliver the remaining records exactly once"})
         return None, None, None
-    # early
-    want = list(range(c["n"] + 1))
+    # early / early-resumed / early-resumed-close: records (and a close_notify) that overtake the end of the peer's final flight
+    resumed = c["kind"].startswith("early-resumed")
+    closing = c["kind"].endswith("-close")
+    who = ("client's" if resumed else "server's")
+    want = list(range(c["n"])) if closing else list(range(c["n"] + 1))
     if not c["done"]:
-        return ("%d application record(s) that overtook the server's ChangeCipherSpec/Finished: the client's handshake did not "
-                "complete although the final flight arrived" % c["n"],
-                "conn.go handleApplicationDataRecord (hand-off to Read before the handshake completed)",
-                {"monitor": "early application data blocks the handshake", "version": 12})
-    if sorted(c["after"]) != want or c["extra"] or c["parked"]:
-        return ("records that overtook the server's ChangeCipherSpec/Finished (reordering inside the window): Read returned %s, "
-                "expected each of %s exactly once; %d record(s) still parked in Conn.encryptedPackets" % (c["after"], want, c["parked"]),
-                "internal/flight/flight12/flight5handler.go flight5Parse (never reads the early-record queue)",
-                {"monitor": "records that overtook the final flight not delivered exactly once", "version": 12})
+        return ("%d application record(s)%s that overtook the %s ChangeCipherSpec/Finished: the receiving side's handshake did not "
+                "complete although the final flight arrived (%s)" % (c["n"], " and a close_notify" if closing else "", who,
+                                                                     c.get("notes2") or "still pending"),
+                "conn.go handleApplicationDataRecord / handleQueuedPackets (early records read back while the handshake completes)",
+                {"monitor": "early records block or fail the handshake", "version": 12, "resumed": resumed, "close_notify": closing})
+    if sorted(c["after"] or []) != want or c["extra"] or c["parked"]:
+        return ("records that overtook the %s ChangeCipherSpec/Finished (reordering inside the window): Read returned %s, "
+                "expected each of %s exactly once; %d record(s) still parked in Conn.encryptedPackets" % (who, c["after"], want, c["parked"]),
+                "internal/flight/flight12 flight5Parse / flight4bParse (reading the early-record queue back)",
+                {"monitor": "records that overtook the final flight not delivered exactly once", "version": 12, "resumed": resumed})
     return None, None, None
 
 
